@@ -68,6 +68,26 @@ fn gen_help(rng: &mut Rng, tag: &str) -> Help {
                     }
                     text.push('\n');
                 }
+                5 if p > 0 && rng.chance(1, 2) => {
+                    // fenced code block, sometimes with an empty line inside; what follows it
+                    // starts a paragraph of its own
+                    text.push_str("\n\n```\n");
+                    for k in 0..rng.range(1, 3) {
+                        if k > 0 && rng.chance(1, 2) {
+                            text.push('\n');
+                        }
+                        let c = format!(
+                            "CODE{}x{} {}",
+                            tag,
+                            code.len(),
+                            "z".repeat(rng.range(1, 90))
+                        );
+                        text.push_str(&c);
+                        text.push('\n');
+                        code.push(c);
+                    }
+                    text.push_str("```\n\nafter-fence");
+                }
                 3 => {
                     text.push(' ');
                     let len = rng.range(20, 200);
@@ -217,7 +237,7 @@ fn check_doc(
     terms: &[String],
     h: u64,
 ) {
-    let reference = match guarded(0, || format!("{:60000}", doc)).0 {
+    let reference = match guarded(RENDER_FUEL, || format!("{:60000}", doc)).0 {
         Ok(r) => r,
         Err(o) => {
             case.rep.violation(
@@ -232,7 +252,9 @@ fn check_doc(
     let ref_stripped = strip_ws(&reference);
     let mut longest_line = 0;
     for w in 1..=300usize {
-        let rendered = match guarded(0, || format!("{:w$}", doc, w = w)).0 {
+        let (rendered, hk) = guarded(RENDER_FUEL, || format!("{:w$}", doc, w = w));
+        case.rep.max("render_ticks_max", hk.ticks);
+        let rendered = match rendered {
             Ok(r) => r,
             Err(o) => {
                 case.rep.violation(
@@ -387,8 +409,15 @@ pub fn run_case(case: &mut Case) {
 
         // short form: exactly the first paragraph of every help text that is shown at all
         if what.contains("help") {
-            let short = doc.monochrome(false);
-            let long = doc.monochrome(true);
+            let (short, long) = match guarded(RENDER_FUEL, || {
+                (doc.monochrome(false), doc.monochrome(true))
+            })
+            .0
+            {
+                Ok(x) => x,
+                // reported by check_doc above
+                Err(_) => continue,
+            };
             let _ = full;
             for hp in &d.helps {
                 if !long.contains(&hp.first) {
@@ -430,7 +459,12 @@ pub fn run_case(case: &mut Case) {
                     .set("definition", crate::outcome::clip(&d.spec.pretty()))
                     .set("doc", what)
                     .set("widths", "1..=300")
-                    .set("rendered_at_60", crate::outcome::clip(&format!("{:60}", doc))),
+                    .set(
+                        "rendered_at_60",
+                        crate::outcome::clip(
+                            &guarded(RENDER_FUEL, || format!("{:60}", doc)).0.unwrap_or_default(),
+                        ),
+                    ),
             );
         }
     }
